@@ -124,9 +124,12 @@ NONLIT = ['object', 'set', 'frozenset', 'lambda', 'instance', 'unknown_ref', 'ra
           # instances of int / str / float subclasses that are == and hash-equal to a plain literal
           # (16, 'cosine', 2.5) but print as something that is no literal
           'intenum16', 'strsub_cosine', 'floatsub_2_5',
+          # ... or as a literal followed by something else (a quantity with its unit)
+          'floatsub_2_5_m', 'intsub_16_px',
           # objects whose repr *looks like* Gin syntax without being a literal
           'reprs_as_unknown_ref', 'reprs_as_macro']
-TWINS = {'intenum16': '16', 'strsub_cosine': "'cosine'", 'floatsub_2_5': '2.5'}
+TWINS = {'intenum16': '16', 'strsub_cosine': "'cosine'", 'floatsub_2_5': '2.5',
+         'floatsub_2_5_m': '2.5', 'intsub_16_px': '16'}
 
 
 class _Inst:
@@ -167,8 +170,21 @@ class _FloatSub(float):
     return '<Rate %s>' % float(self)
 
 
+class _Metres(float):
+
+  def __repr__(self):
+    return '%s m' % float(self)
+
+
+class _Pixels(int):
+
+  def __repr__(self):
+    return '%d px' % int(self)
+
+
 def nonlit_obj(kind):
   return {
+      'floatsub_2_5_m': lambda: _Metres(2.5), 'intsub_16_px': lambda: _Pixels(16),
       'reprs_as_unknown_ref': _ReprsAsRef, 'reprs_as_macro': _ReprsAsMacro,
       'intenum16': lambda: _Prec.HALF, 'strsub_cosine': lambda: _StrSub('cosine'),
       'floatsub_2_5': lambda: _FloatSub(2.5),
